@@ -93,6 +93,9 @@ func runHistory(R *vlib.Out, c *histCfg, hist []int, record bool) (sig, detail s
 	if res.Capped {
 		return "livelock-or-step-cap", fmt.Sprint("steps ", res.Steps)
 	}
+	if res.MainBlocked {
+		return "call-never-returned", "the history's main task is blocked for good in " + res.MainOp + leakedStr(res.Leaked)
+	}
 	return
 }
 
